@@ -1,5 +1,20 @@
 import PsVerif.Model.T1Decode
 import PsVerif.Props.C20
+/-!
+Helper lemmas for C06 (byte-level round trip of Type 1 charstrings in the integer domain).
+
+Layers, bottom up:
+1. numbers: `run_int`/`run_num` — one `run` step on `appendInt n ++ rest` pushes `n`
+   (uses `C20.int_rt`); `run_op_cont`, `run_op2_cont`, `run_endchar` for operators;
+2. instructions: `run_hmoveto … run_rrcurveto`, `run_closepath`, `run_hstem_pair`, `run_vstem_pair`,
+   `run_hsbw`, `run_sbw` on canonical states `mk …`;
+3. commands: `encodeCmdBytes_int` (what the encoder writes when all operands are `int32`
+   integers) and `run_command` (the decoder executes exactly that command);
+4. lists: `run_path`, `run_hstems`, `run_vstems` (induction, no bound on the length; the budget
+   consumed is exactly `pathTokens`/`stemTokens`, fuel is threaded as `f + tokens`);
+5. `decode_encode_state`: the assembled charstring.
+The statements of the property are in `Props/C06Round.lean`.
+-/
 
 namespace PsVerif.Proofs.T1RoundTrip
 open PsVerif.Model.T1Num PsVerif.Model.T1Encode PsVerif.Model.T1Decode
@@ -71,13 +86,13 @@ def inInt16 (x : Int) : Prop := -32768 ≤ x ∧ x ≤ 32767
 instance (x : Int) : Decidable (inInt16 x) := by unfold inInt16; infer_instance
 
 theorem stem_pair (a b : Int) (ha : inInt16 a) (hb : inInt16 b) :
-    wrap16 (0 + wrap16 a) = a ∧ wrap16 (wrap16 (0 + wrap16 a) + wrap16 (b - a)) = b := by
+    wrap16 (0 + wrap16 a) = a ∧ wrap16 (a + wrap16 (b - a)) = b := by
   unfold inInt16 at ha hb
   unfold wrap16
   simp only
   constructor
   · split <;> split <;> omega
-  · split <;> split <;> split <;> split <;> omega
+  · split <;> split <;> omega
 
 /-! ## decoder states in canonical form -/
 
@@ -633,9 +648,9 @@ theorem run_hstems : ∀ (l : List Int) (f : Nat) (hs vs : List Int) (nops : Nat
     simp only [stemsFit, List.all_cons, Bool.and_eq_true, decide_eq_true_eq] at hfit
     obtain ⟨ha, hb, hl⟩ := hfit
     simp only [stemTokens] at ho
-    simp only [stemTokens, encodeStems, stemsNorm, appendOp, List.append_assoc, List.cons_append, List.nil_append]
+    have eop : appendOp 1 = [1] := rfl
+    simp only [stemTokens, encodeStems, stemsNorm, eop, List.append_assoc, List.cons_append, List.nil_append]
     have ef : f + (3 + stemTokens l) = (f + stemTokens l) + 3 := by omega
-    rw [show (1 < 256) = True by decide, if_true]
     rw [ef, run_hstem_pair subrs callers _ acc hs vs wx wy px py closed nops _ a b ha hb (by omega)]
     rw [run_hstems l f _ _ _ hl (by omega)]
     simp only [List.append_assoc, List.cons_append, List.nil_append, Nat.add_assoc]
@@ -650,13 +665,199 @@ theorem run_vstems : ∀ (l : List Int) (f : Nat) (hs vs : List Int) (nops : Nat
     simp only [stemsFit, List.all_cons, Bool.and_eq_true, decide_eq_true_eq] at hfit
     obtain ⟨ha, hb, hl⟩ := hfit
     simp only [stemTokens] at ho
-    simp only [stemTokens, encodeStems, stemsNorm, appendOp, List.append_assoc, List.cons_append, List.nil_append]
+    have eop : appendOp 3 = [3] := rfl
+    simp only [stemTokens, encodeStems, stemsNorm, eop, List.append_assoc, List.cons_append, List.nil_append]
     have ef : f + (3 + stemTokens l) = (f + stemTokens l) + 3 := by omega
-    rw [show (3 < 256) = True by decide, if_true]
     rw [ef, run_vstem_pair subrs callers _ acc hs vs wx wy px py closed nops _ a b ha hb (by omega)]
     rw [run_vstems l f _ _ _ hl (by omega)]
     simp only [List.append_assoc, List.cons_append, List.nil_append, Nat.add_assoc]
 
 end
+
+/-! ## prologue, epilogue, and the assembled charstring -/
+
+theorem int16OfRound_zero : int16OfRound ((0 : Int) : Rat) = 0 := by
+  rw [int16OfRound_intCast]; decide
+
+section
+variable (subrs : List (List Nat)) (callers : List (List Nat)) (f : Nat) (rest : List Nat)
+
+theorem run_hsbw (wx : Int) (hwx : inInt32 wx) :
+    run subrs (f + 3) (mk [] [] [] [] 0 0 0 0 true 0) (appendInt 0 ++ (appendInt wx ++ (13 :: rest))) callers
+      = run subrs f (mk [] [] [] [] wx 0 0 0 true 3) rest callers := by
+  have hm : (0 : Nat) + 3 ≤ maxOps := by decide
+  rw [run_int subrs callers (f + 2) _ 0 (by decide) _ (by simp [mk, maxStack]) (by simp [mk, maxOps])]
+  rw [run_int subrs callers (f + 1) _ wx hwx _ (by simp [mk, maxStack]) (by simp [mk, maxOps])]
+  rw [run_op_cont subrs callers f _
+    { mk [] [] [] [] wx 0 ((0 : Int) : Rat) 0 true 3 with lsbX := int16OfRound ((0 : Int) : Rat) } 13 rest
+    (by omega) (by omega) (by simp [mk, maxStack]) (by simp [mk, maxOps]) rfl]
+  rw [int16OfRound_zero]
+  rfl
+
+theorem run_sbw (wx wy : Int) (hwx : inInt32 wx) (hwy : inInt32 wy) :
+    run subrs (f + 5) (mk [] [] [] [] 0 0 0 0 true 0)
+        (appendInt 0 ++ (appendInt 0 ++ (appendInt wx ++ (appendInt wy ++ (12 :: 7 :: rest))))) callers
+      = run subrs f (mk [] [] [] [] wx wy 0 0 true 5) rest callers := by
+  rw [run_int subrs callers (f + 4) _ 0 (by decide) _ (by simp [mk, maxStack]) (by simp [mk, maxOps])]
+  rw [run_int subrs callers (f + 3) _ 0 (by decide) _ (by simp [mk, maxStack]) (by simp [mk, maxOps])]
+  rw [run_int subrs callers (f + 2) _ wx hwx _ (by simp [mk, maxStack]) (by simp [mk, maxOps])]
+  rw [run_int subrs callers (f + 1) _ wy hwy _ (by simp [mk, maxStack]) (by simp [mk, maxOps])]
+  rw [run_op2_cont subrs callers f _
+    { mk [] [] [] [] wx wy ((0 : Int) : Rat) ((0 : Int) : Rat) true 5 with
+        lsbX := int16OfRound ((0 : Int) : Rat), lsbY := int16OfRound ((0 : Int) : Rat) } 7 rest
+    (by simp [mk, maxStack]) (by simp [mk, maxOps]) rfl]
+  rw [int16OfRound_zero]
+  rfl
+
+end
+
+/-- the decoder's last step: `if !isClosed { rClosePath() }` -/
+def finish (d : DState) : DState := if !d.isClosed then closePath d else d
+
+theorem decodeCharString_eq (subrs : List (List Nat)) (code : List Nat) (d : DState)
+    (h : run subrs (2 * maxOps + 64) {} code [] = .ok d) :
+    decodeCharString subrs code = .ok (finish d) := by
+  unfold decodeCharString finish; rw [h]
+
+theorem finish_mk (cmds hs vs wx wy px py closed nops) :
+    finish (mk [] cmds hs vs wx wy px py closed nops)
+      = mk [] (cmds ++ (if closed then [] else [.closePath])) hs vs wx wy px py true nops := by
+  cases closed <;> simp [finish, mk, closePath]
+
+/-- tokens of the whole charstring -/
+def tokens (g : PsVerif.Model.T1Encode.Glyph) (wy : Int) : Nat :=
+  (if wy = 0 then 3 else 5) + stemTokens g.hstem + stemTokens g.vstem + pathTokens 0 0 g.cmds + 1
+
+/-- the budget is linear in the size of the glyph -/
+theorem tokens_le (g : PsVerif.Model.T1Encode.Glyph) (wy : Int) :
+    tokens g wy ≤ 7 * g.cmds.length + 2 * (g.hstem.length + g.vstem.length) + 6 := by
+  unfold tokens
+  have h1 := stemTokens_le g.hstem
+  have h2 := stemTokens_le g.vstem
+  have h3 := pathTokens_le g.cmds 0 0
+  split <;> omega
+
+/-- **assembled round trip**, with the hypotheses spelled out -/
+theorem decode_encode_state (subrs : List (List Nat)) (g : PsVerif.Model.T1Encode.Glyph) (wx wy : Int)
+    (hwx : inInt32 wx) (hwy : inInt32 wy)
+    (hh : stemsFit g.hstem = true) (hv : stemsFit g.vstem = true)
+    (hp : pathFits 0 0 g.cmds = true) (hb : tokens g wy ≤ maxOps) :
+    decodeCharString subrs (encodeCharString g wx wy)
+      = .ok (mk [] (normCmds true g.cmds) (stemsNorm g.hstem) (stemsNorm g.vstem) wx wy
+          (pathEnd 0 0 g.cmds).1 (pathEnd 0 0 g.cmds).2 true (tokens g wy)) := by
+  generalize hH : stemTokens g.hstem = H at *
+  generalize hV : stemTokens g.vstem = V at *
+  generalize hP : pathTokens 0 0 g.cmds = P at *
+  have e14 : appendOp 14 = [14] := rfl
+  have e13 : appendOp 13 = [13] := rfl
+  have e3079 : appendOp (12 * 256 + 7) = [12, 7] := rfl
+  by_cases hwy0 : wy = 0
+  · subst hwy0
+    simp only [tokens, if_true, hH, hV, hP] at hb ⊢
+    have key : run subrs (2 * maxOps + 64) {} (encodeCharString g wx 0) []
+        = .ok (mk [] (pathOut true g.cmds) (stemsNorm g.hstem) (stemsNorm g.vstem) wx ((0 : Int) : Rat)
+            (pathEnd 0 0 g.cmds).1 (pathEnd 0 0 g.cmds).2 (pathClosed true g.cmds) (3 + H + V + P + 1)) := by
+      have ef : 2 * maxOps + 64 = (((((2 * maxOps + 64 - (3 + H + V + P + 1)) + 1) + P) + V) + H) + 3 := by omega
+      simp only [encodeCharString, if_true, e13, e14, List.append_assoc, List.cons_append, List.nil_append]
+      rw [ef, init_eq, run_hsbw subrs [] _ _ wx hwx]
+      rw [← hH, run_hstems subrs [] [] wx 0 0 0 true _ g.hstem _ [] [] 3 hh (by omega)]
+      rw [← hV, run_vstems subrs [] [] wx 0 0 0 true _ g.vstem _ _ [] _ hv (by omega)]
+      rw [← hP, run_path subrs [] _ _ wx 0 _ g.cmds _ [] 0 0 true _ hp (by omega)]
+      rw [run_endchar subrs [] _ _ [] (by simp [mk, maxStack]) (by simp only [mk]; omega)]
+      simp only [List.nil_append, hH, hV, hP]
+      rfl
+    rw [decodeCharString_eq subrs _ _ key, finish_mk]
+    rfl
+  · simp only [tokens, if_neg hwy0, hH, hV, hP] at hb ⊢
+    have key : run subrs (2 * maxOps + 64) {} (encodeCharString g wx wy) []
+        = .ok (mk [] (pathOut true g.cmds) (stemsNorm g.hstem) (stemsNorm g.vstem) wx wy
+            (pathEnd 0 0 g.cmds).1 (pathEnd 0 0 g.cmds).2 (pathClosed true g.cmds) (5 + H + V + P + 1)) := by
+      have ef : 2 * maxOps + 64 = (((((2 * maxOps + 64 - (5 + H + V + P + 1)) + 1) + P) + V) + H) + 5 := by omega
+      simp only [encodeCharString, if_neg hwy0, e3079, e14, List.append_assoc, List.cons_append, List.nil_append]
+      rw [ef, init_eq, run_sbw subrs [] _ _ wx wy hwx hwy]
+      rw [← hH, run_hstems subrs [] [] wx wy 0 0 true _ g.hstem _ [] [] 5 hh (by omega)]
+      rw [← hV, run_vstems subrs [] [] wx wy 0 0 true _ g.vstem _ _ [] _ hv (by omega)]
+      rw [← hP, run_path subrs [] _ _ wx wy _ g.cmds _ [] 0 0 true _ hp (by omega)]
+      rw [run_endchar subrs [] _ _ [] (by simp [mk, maxStack]) (by simp only [mk]; omega)]
+      simp only [List.nil_append, hH, hV, hP]
+      rfl
+    rw [decodeCharString_eq subrs _ _ key, finish_mk]
+    rfl
+
+/-! ## outlines that are already in the decoder's normal form -/
+
+/-- no `moveTo` inside an open contour and no open contour at the end, where "open" is the
+decoder's notion (`cmdClosed`): a `lineTo` was drawn since the last `closePath`/`moveTo` -/
+def wellClosed : Bool → List Cmd → Bool
+  | closed, [] => closed
+  | closed, .moveTo _ _ :: cs => closed && wellClosed true cs
+  | closed, c :: cs => wellClosed (cmdClosed closed c) cs
+
+theorem normCmds_cons (closed : Bool) (c : Cmd) (cs : List Cmd) :
+    normCmds closed (c :: cs) = cmdOut closed c ++ normCmds (cmdClosed closed c) cs := by
+  unfold normCmds
+  rw [← List.append_assoc]
+  rfl
+
+theorem normCmds_of_wellClosed (cs : List Cmd) : ∀ closed, wellClosed closed cs = true → normCmds closed cs = cs := by
+  induction cs with
+  | nil => intro closed h; simp [wellClosed] at h; simp [normCmds, pathOut, pathClosed, h]
+  | cons c cs ih =>
+    intro closed h
+    rw [normCmds_cons]
+    cases c with
+    | moveTo x y =>
+      simp only [wellClosed, Bool.and_eq_true] at h
+      simp only [cmdOut, cmdClosed, h.1, if_true, List.nil_append, List.cons_append, ih true h.2]
+    | lineTo x y => simp only [wellClosed] at h; simp only [cmdOut, List.cons_append, List.nil_append, ih _ h]
+    | curveTo x1 y1 x2 y2 x3 y3 => simp only [wellClosed] at h; simp only [cmdOut, List.cons_append, List.nil_append, ih _ h]
+    | closePath => simp only [wellClosed] at h; simp only [cmdOut, List.cons_append, List.nil_append, ih _ h]
+
+/-! ## a simple sufficient condition for `pathFits` -/
+
+/-- an integer of absolute value at most `2^30 - 1` -/
+def smallInt (x : Rat) : Bool := x.den == 1 && decide (-1073741823 ≤ x.num ∧ x.num ≤ 1073741823)
+
+def cmdSmall : Cmd → Bool
+  | .moveTo x y => smallInt x && smallInt y
+  | .lineTo x y => smallInt x && smallInt y
+  | .curveTo x1 y1 x2 y2 x3 y3 => smallInt x1 && smallInt y1 && smallInt x2 && smallInt y2 && smallInt x3 && smallInt y3
+  | .closePath => true
+
+theorem isInt32_sub_of_small {a b : Rat} (ha : smallInt a = true) (hb : smallInt b = true) :
+    isInt32 (a - b) = true := by
+  simp only [smallInt, Bool.and_eq_true, beq_iff_eq, decide_eq_true_eq] at ha hb
+  rw [← cast_num_of_den_one a ha.1, ← cast_num_of_den_one b hb.1, ← Rat.intCast_sub]
+  apply isInt32_intCast
+  unfold inInt32; omega
+
+theorem cmdFits_of_small (px py : Rat) (c : Cmd) (hx : smallInt px = true) (hy : smallInt py = true)
+    (hc : cmdSmall c = true) :
+    cmdFits px py c = true ∧ smallInt (cmdEnd px py c).1 = true ∧ smallInt (cmdEnd px py c).2 = true := by
+  cases c with
+  | moveTo x y =>
+    simp only [cmdSmall, Bool.and_eq_true] at hc
+    simp only [cmdFits, cmdEnd, Bool.and_eq_true, isInt32_sub_of_small hc.1 hx, isInt32_sub_of_small hc.2 hy, hc.1, hc.2, and_self]
+  | lineTo x y =>
+    simp only [cmdSmall, Bool.and_eq_true] at hc
+    simp only [cmdFits, cmdEnd, Bool.and_eq_true, isInt32_sub_of_small hc.1 hx, isInt32_sub_of_small hc.2 hy, hc.1, hc.2, and_self]
+  | curveTo x1 y1 x2 y2 x3 y3 =>
+    simp only [cmdSmall, Bool.and_eq_true] at hc
+    obtain ⟨⟨⟨⟨⟨h1, h2⟩, h3⟩, h4⟩, h5⟩, h6⟩ := hc
+    simp only [cmdFits, cmdEnd, Bool.and_eq_true, isInt32_sub_of_small h1 hx, isInt32_sub_of_small h2 hy,
+      isInt32_sub_of_small h3 h1, isInt32_sub_of_small h4 h2, isInt32_sub_of_small h5 h3, isInt32_sub_of_small h6 h4,
+      h5, h6, and_self]
+  | closePath => simp only [cmdFits, cmdEnd, hx, hy, and_self]
+
+theorem pathFits_of_small (cs : List Cmd) : ∀ px py, smallInt px = true → smallInt py = true →
+    cs.all cmdSmall = true → pathFits px py cs = true := by
+  induction cs with
+  | nil => intros; rfl
+  | cons c cs ih =>
+    intro px py hx hy hall
+    simp only [List.all_cons, Bool.and_eq_true] at hall
+    obtain ⟨h1, h2, h3⟩ := cmdFits_of_small px py c hx hy hall.1
+    simp only [pathFits, h1, Bool.true_and]
+    exact ih _ _ h2 h3 hall.2
 
 end PsVerif.Proofs.T1RoundTrip
